@@ -3,9 +3,11 @@ package main
 import (
 	"fmt"
 	"go/ast"
+	"go/constant"
 	"go/token"
 	"go/types"
 	"sort"
+	"strconv"
 
 	"golang.org/x/tools/go/ssa"
 )
@@ -363,10 +365,45 @@ func ruleBookkeeping(c *Ctx, t *tables) {
 				if !ok {
 					continue
 				}
+				// the assigned value must be the constant true
+				if v, ok := constOfExpr(info, as.Rhs[0]); !ok || v.String() != "true" {
+					continue
+				}
 				if s, ok := sets[info.ObjectOf(id)]; ok {
-					if kid, ok := ix.Index.(*ast.Ident); ok && x.Key != nil && kid.Name == types.ExprString(x.Key) {
-						for k := range t.pt.prec {
-							s[k] = true
+					kid, ok := ix.Index.(*ast.Ident)
+					if !ok {
+						continue
+					}
+					c.buildSSA()
+					g, _ := c.SSA["parser"].Members[src.Name].(*ssa.Global)
+					if g == nil {
+						continue
+					}
+					switch deref(g.Type()).Underlying().(type) {
+					case *types.Map:
+						// for k := range table { set[k] = true }
+						if x.Key == nil || info.ObjectOf(kid) != info.ObjectOf(x.Key.(*ast.Ident)) {
+							continue
+						}
+						if tbl := globalMapTable(g); tbl != nil {
+							for ks := range tbl {
+								if kv, err := strconv.ParseInt(ks, 10, 64); err == nil {
+									s[kv] = true
+								}
+							}
+						}
+					case *types.Slice, *types.Array:
+						// for _, k := range list { set[k] = true }
+						vid, isId := x.Value.(*ast.Ident)
+						if x.Value == nil || !isId || info.ObjectOf(kid) != info.ObjectOf(vid) {
+							continue
+						}
+						for _, kv := range globalSeqTable(g) {
+							if kv != nil {
+								if n, ok := constant.Int64Val(kv); ok {
+									s[n] = true
+								}
+							}
 						}
 					}
 				}
@@ -600,7 +637,7 @@ func ruleTokenIds(c *Ctx, t *tables) {
 				}
 			}
 		}
-		res := ret.Results[0]
+		res := phiOnPath(ret.Results[0], blocks)
 		if ex, ok := res.(*ssa.Extract); ok && ex.Tuple == ssa.Value(lookup) && ex.Index == 0 {
 			hit++
 			c.check(writes == 0, fmt.Sprintf("RegisterTokenType: memo hit #%d", hit), ret.Pos(), "returns the stored id, no write", "a memo hit writes builder state")
